@@ -614,6 +614,23 @@ func TestC09Faults(t *testing.T) {
 			forAll(kind, func(f Fault) { add(size, f, C09Op{}) })
 		}
 	}
-	rule := fmt.Sprintf("fault enumeration: {append, free (every non-empty subset), replenish accounts, replenish pools, fund, sector roots, write, form, renew, refresh full, refresh partial} x {close before each renter step, host deadline fires while it waits for the renter, half a message then close} + {random signature, signature over another revision number, signature by another key} at the signing point + for form / renew / refresh {renter input signatures invalid, renter inputs double-spent through the pool right before the signatures are sent} (every handler check passes, the pool rejects the finished set), on contracts of 0..%d sectors; afterwards an honest append, free and full root listing on the same (or renewed) contract, then the same three against the original contract id (refused if it was renewed)", maxSize)
+	// directed: honest renew / refresh of a contract with 2..4 sectors, then a
+	// free (every single position and the first two) or an append as the FIRST
+	// root-changing RPC on the renewal, then the other one; the roots of the
+	// old, renewed contract are part of every snapshot comparison
+	for _, kind := range []string{"renew", "refresh-full", "refresh-partial"} {
+		for size := 2; size <= 4; size++ {
+			var firsts [][]int
+			for i := 0; i < size; i++ {
+				firsts = append(firsts, []int{i})
+			}
+			firsts = append(firsts, []int{1, 0})
+			for _, idx := range firsts {
+				cases = append(cases, C09Case{Sizes: []int{size}, Ops: []C09Op{{Op: kind}, {Op: "free", Idx: idx}, {Op: "roots", Len: -1}, {Op: "append", Roots: []int{12}}, {Op: "free", Idx: []int{0}}, {Op: "roots", Len: -1}}})
+			}
+			cases = append(cases, C09Case{Sizes: []int{size}, Ops: []C09Op{{Op: kind}, {Op: "append", Roots: []int{12}}, {Op: "free", Idx: []int{0}}, {Op: "roots", Len: -1}}})
+		}
+	}
+	rule := fmt.Sprintf("fault enumeration: {append, free (every non-empty subset), replenish accounts, replenish pools, fund, sector roots, write, form, renew, refresh full, refresh partial} x {close before each renter step, host deadline fires while it waits for the renter, half a message then close} + {random signature, signature over another revision number, signature by another key} at the signing point + for form / renew / refresh {renter input signatures invalid, renter inputs double-spent through the pool right before the signatures are sent} (every handler check passes, the pool rejects the finished set), on contracts of 0..%d sectors; plus honest renew / refresh followed by a free of each position (or an append) as the first root-changing RPC on the renewal, with the renewed contract kept in every by-value comparison; afterwards an honest append, free and full root listing on the same (or renewed) contract, then the same three against the original contract id (refused if it was renewed)", maxSize)
 	runDirect(t, rule, cases)
 }
